@@ -14,6 +14,7 @@ joined at a point that the run thread determines under the socket lock.
     maximum-size I PDUs with MSG_DONTWAIT while the peer's acknowledgements are pending
   * service name lookups: many names at once (SNL batches in both directions)
   * every 8th configuration idles for 14 more iterations (the run loops' idle pauses against LTO / RWT)
+  * the target side answers twice at 0.9 x the RWT it announced (when its announced LTO allows that)
 
 (*) observed while building this (not a C19 matter, reported to the C05/C17 owners): data sent on an accepted
     socket in the same run loop iteration as accept() is dequeued *before* the CC (the accepted socket is inserted
@@ -148,6 +149,13 @@ class App(object):
 
     def step(self, j):
         k = self.k
+        # a slow target: twice it answers only after 0.9 x the response waiting time it announced in its ATR_RES
+        # (when that is still within the link timeout it announced); the initiator has to wait that long
+        if self.side == "t" and j in (2, 9):
+            rwt = 4096 / 13.56E6 * 2 ** self.x["rwt"]
+            if self.x["rwt"] >= 6 and 900.0 * rwt + 3 <= (self.x["ltoT"] // 10) * 10:
+                self.air.clock.sleep(0.9 * rwt)
+                self.shared["slow"] = self.shared.get("slow", 0) + 1
         # connection-less traffic
         if j == 1:
             self.burst(3, -2 + k % 7, 10)            # sum = MIU-14 .. MIU-8
